@@ -402,7 +402,61 @@ def rule_uniform_tracer(chk, prog):
   chk.at_least(rule, 6)
 
 
+def rule_moist_divergence_form(chk, prog):
+  """Necessary condition of `the global mean of divergence never changes` for the moist classes: the reference-temperature
+  humidity correction c·(q ∆ln pₛ + ∇q·∇ln pₛ) is the divergence c·∇·(q ∇ln pₛ) only if the q that multiplies the Laplacian is
+  the very field whose gradient is taken — the nodal tracer of the diagnostic state and the modal tracer of the state, of the
+  same name, with nothing applied to either (a clamp, a scaling or another tracer on one side leaves a non-zero mean)."""
+  rule = 'C11.M-moist-correction-is-a-divergence'
+  GR = 'spherical_harmonic.Grid.'
+  opaque = {GR + n for n in ('to_nodal', 'to_modal', 'laplacian', 'cos_lat_grad', 'clip_wavenumbers')} | {f'{PE}.get_geopotential_diff'}
+  def bare_tracers(t, holder):
+    """names when t is a bare tracer read holder.tracers[name] or a sum of such reads, else None"""
+    t = util.strip(t)
+    if t.k == 'sub' and t.a[1].k == 'const' and isinstance(t.a[1].a[0], str) and t.a[0].k == 'attr' and t.a[0].a[1] == 'tracers' and t.a[0].a[0] == holder:
+      return {t.a[1].a[0]}
+    if t.k == 'bin' and t.a[0] == '+':
+      l, r = bare_tracers(t.a[1], holder), bare_tracers(t.a[2], holder)
+      return None if l is None or r is None else l | r
+    return None
+  reads_tracer = lambda t: sym.contains(t, lambda z: z.k == 'attr' and z.a[1] == 'tracers')
+  for cname in ('MoistPrimitiveEquations', 'MoistPrimitiveEquationsWithCloudMoisture'):
+    cls = prog.cls(f'{PE}.{cname}')
+    f = cls.find_method('divergence_tendency_due_to_humidity')
+    ev = sym.Evaluator(prog, sym.Options(opaque=opaque))
+    v, _, env = ev.run(f, self_cls=cls)
+    site, loc = f'{PE}.{cname}.divergence_tendency_due_to_humidity', (f.file, f.lineno)
+    st, aux = S(f.param_names()[1]), S(f.param_names()[2])
+    lap_nodal = lambda t: t.k == 'call' and util.callee_name(t) == 'to_nodal' and util.call_args(t) and util.callee_name(util.call_args(t)[0]) == 'laplacian'
+    prods = [t for t in sym.walk(v) if t.k == 'bin' and t.a[0] == '*' and any(lap_nodal(x) for x in match.plain_factors(t))]
+    tops = [t for t in prods if not any(o is not t and sym.contains(o, lambda z: z is t) for o in prods)]
+    nodal_keys, ok_nodal = set(), True
+    for t in tops:
+      for fct in match.plain_factors(t):
+        if reads_tracer(fct):
+          k = bare_tracers(fct, aux)
+          if k is None:
+            ok_nodal = False
+          else:
+            nodal_keys |= k
+    grads = list({t for t in sym.walk(v) if t.k == 'call' and util.callee_name(t) == 'cos_lat_grad' and reads_tracer(t)})
+    modal_keys, ok_modal = set(), bool(grads)
+    for gt in grads:
+      k = bare_tracers(util.call_args(gt)[0], st)
+      if k is None:
+        ok_modal = False
+      else:
+        modal_keys |= k
+    chk.require(len(tops) >= 1, f'{site}: no q·∆ln pₛ product found')
+    chk.check(ok_nodal, rule, f'{site}: the factor of ∆ln pₛ is the bare nodal tracer (sum) of the diagnostic state', f'tracers {sorted(nodal_keys)}', loc,
+              'aux_state.tracers[name] (nothing applied)', 'a function of the tracer')
+    chk.check(ok_modal, rule, f'{site}: the gradient is taken of the bare modal tracer (sum) of the state', f'tracers {sorted(modal_keys)}', loc, 'state.tracers[name] (nothing applied)', 'a function of the tracer')
+    chk.check(nodal_keys == modal_keys and bool(nodal_keys), rule, f'{site}: both halves of ∇·(q ∇ln pₛ) use the same tracer(s)', f'{sorted(nodal_keys)} vs {sorted(modal_keys)}', loc)
+  chk.at_least(rule, 6)
+
+
 def run(chk, prog, tier):
+  rule_moist_divergence_form(chk, prog)
   from rules import c01 as _c01
   _c01.rule_shared_state(chk, prog, rule='C11.S-shared-arrays-never-updated-in-place')
   rule_uniform_tracer(chk, prog)
